@@ -260,3 +260,82 @@ def expand(node, fn, depth=6):
 def xnorm(node, fn):
     """normalised text of a node after forward substitution of temporaries"""
     return norm(expand(node, fn))
+
+
+# ---------------------------------------------------------------------------
+# propositional reading of a test: comparisons are atoms, `in (a, b)` is a disjunction of equalities
+# ---------------------------------------------------------------------------
+def bool_term(test):
+    """sympy boolean over atoms named by normalised source text; equal up to ==/!=, in/not in over displays, De Morgan, operand order"""
+    import sympy as sp
+
+    def atom(kind, *xs):
+        return sp.Symbol("%s[%s]" % (kind, "|".join(xs)))
+
+    def eq(a, b):
+        ta, tb = sorted((ast.unparse(a), ast.unparse(b)))
+        return atom("EQ", ta, tb)
+
+    def t(e):
+        if isinstance(e, ast.BoolOp):
+            vs = [t(v) for v in e.values]
+            return sp.And(*vs) if isinstance(e.op, ast.And) else sp.Or(*vs)
+        if isinstance(e, ast.UnaryOp) and isinstance(e.op, ast.Not):
+            return sp.Not(t(e.operand))
+        if isinstance(e, ast.Compare):
+            parts = []
+            left = e.left
+            for op, right in zip(e.ops, e.comparators):
+                if isinstance(op, ast.Eq):
+                    parts.append(eq(left, right))
+                elif isinstance(op, ast.NotEq):
+                    parts.append(sp.Not(eq(left, right)))
+                elif isinstance(op, (ast.In, ast.NotIn)) and isinstance(right, (ast.Tuple, ast.List, ast.Set)):
+                    d = sp.Or(*[eq(left, x) for x in right.elts]) if right.elts else sp.false
+                    parts.append(d if isinstance(op, ast.In) else sp.Not(d))
+                elif isinstance(op, (ast.Is, ast.IsNot)) and isinstance(right, ast.Constant) and right.value is None:
+                    a = atom("NONE", ast.unparse(left))
+                    parts.append(a if isinstance(op, ast.Is) else sp.Not(a))
+                elif isinstance(op, (ast.Lt, ast.GtE)):
+                    a = atom("LT", ast.unparse(left), ast.unparse(right))
+                    parts.append(a if isinstance(op, ast.Lt) else sp.Not(a))
+                elif isinstance(op, (ast.Gt, ast.LtE)):
+                    a = atom("LT", ast.unparse(right), ast.unparse(left))
+                    parts.append(a if isinstance(op, ast.Gt) else sp.Not(a))
+                else:
+                    parts.append(atom("T", ast.unparse(ast.Compare(left=left, ops=[op], comparators=[right]))))
+                left = right
+            return sp.And(*parts)
+        if isinstance(e, ast.Constant) and isinstance(e.value, bool):
+            return sp.true if e.value else sp.false
+        return atom("T", ast.unparse(e))
+    return t(test)
+
+
+def bool_equivalent(a, b):
+    from sympy.logic.inference import satisfiable
+    import sympy as sp
+    return satisfiable(sp.Xor(a, b)) is False
+
+
+def bool_implies(a, b):
+    from sympy.logic.inference import satisfiable
+    import sympy as sp
+    return satisfiable(sp.And(a, sp.Not(b))) is False
+
+
+def raise_condition(fi):
+    """disjunction over the raise statements of the function of the conjunction of their controlling tests (as bool_term)"""
+    import sympy as sp
+    cfg = cfg_of(fi)
+    view = cfg.view()
+    out = []
+    for n in raise_nodes(cfg):
+        conj = []
+        for b, lab in view.controlling_branches(n):
+            if b.kind != "branch" or not isinstance(getattr(getattr(b, "ast", None), "test", None), ast.AST):
+                continue
+            tt = bool_term(b.ast.test)
+            conj.append(tt if lab == "T" else sp.Not(tt))
+        out.append(sp.And(*conj) if conj else sp.true)
+    return sp.Or(*out) if out else sp.false
